@@ -20,6 +20,14 @@ def stepC22 (ts : List String) : String :=
           let r := OpPool.setOperation acc.1 { op := o, fact := f }
           (r.1, acc.2.1 ++ [boolStr r.2], false)
         | _, _ => (acc.1, acc.2.1 ++ ["bad-op"], true)
+      | ["h", l, m, r, "o"] =>
+        -- a filter that decides per operation
+        match l.toNat?, m.toNat?, r.toNat? with
+        | some l, some m, some r =>
+          let pass := fun (x : OpPool.Rec) => if m = 0 then true else !(x.op % m == r)
+          let res := OpPool.operationHashes l pass acc.1
+          (res.2, acc.2.1 ++ ["[" ++ ",".intercalate (res.1.map (fun x => toString x.op)) ++ "]"], false)
+        | _, _, _ => (acc.1, acc.2.1 ++ ["bad-op"], true)
       | ["h", l, m, r] =>
         match l.toNat?, m.toNat?, r.toNat? with
         | some l, some m, some r =>
